@@ -180,6 +180,11 @@ func (rl *ReplicaLeader) sendData(wait usync.WaitCloser, req *pb.SyncRequest, st
 	defer wait2.Close(nil)
 
 	reader.Start(wait2)
+	if reader.RunId() != reqSp.RunId {
+		// the cache was moved to another replication id after the request's id had been checked
+		err := fmt.Errorf("run id is stale : channel_run_id(%s), replica_run_id(%s)", reader.RunId(), reqSp.RunId)
+		return rl.handleError(stream, err, pb.SyncResponse_ERROR, "internal error", "")
+	}
 	ioReader := reader.IoReader()
 	offset := reqSp.Offset
 
